@@ -308,13 +308,21 @@ func RunProp(t *testing.T, p *Prop) {
 		curPath = filepath.Join(d, fmt.Sprintf("%s.%d.current.json", p.Name, shard))
 	}
 	lastFlush := time.Now()
+	var firstFail time.Time
+	shrinkBudget := time.Duration(envInt("VERIF_SHRINK_BUDGET_S", 40)) * time.Second
 	ok := t.Run("rapid", func(t *testing.T) {
 		rapid.Check(t, func(rt *rapid.T) {
 			c := p.Gen(rt)
 			raw := mustJSON(c)
 			st.mu.Lock()
 			tooSlow := len(st.Slow) >= 3
+			overBudget := st.first != nil && time.Since(firstFail) > shrinkBudget
 			st.mu.Unlock()
+			if overBudget {
+				// rapid checks its shrink deadline rarely; when single cases are slow the harness
+				// ends minimisation itself by letting every further candidate pass
+				return
+			}
 			if tooSlow {
 				// Latency bounds were exceeded several times already: the candidates go to the
 				// driver for confirmation; generating more slow cases only burns the budget.
@@ -338,6 +346,7 @@ func RunProp(t *testing.T, p *Prop) {
 				rec := &ViolationRec{Message: out.Violation, Case: raw}
 				if st.first == nil {
 					st.first = rec
+					firstFail = time.Now()
 				}
 				st.last = rec
 				st.mu.Unlock()
